@@ -22,6 +22,8 @@ if [ "$REPO" != "/repo" ]; then
 fi
 
 overlay() {
+  # development aid: VERIF_NO_OVERLAY=1 exercises the native fall-back (registered commands never set it)
+  [ -n "${VERIF_NO_OVERLAY:-}" ] && return 1
   # Map iteration order is owned through a build overlay generated from the
   # working tree (DESIGN.md 2.5); cached by the hash of the package sources.
   [ -x .build/mapshim ] || go build -o .build/mapshim ./shim/mapshim 2>/dev/null || return 1
